@@ -314,7 +314,7 @@ H("udp_cmsg_encode_iter_roundtrip", ["C19"], "quick", "cmsg::encode_iter_roundtr
   [("v6", "bool"), ("use_tos", "bool"), ("tos", "i32"), ("use_seg", "bool"), ("seg", "u16"), ("use_pktinfo", "bool"), ("addr4", "u32"), ("addr6", "[u8; 16]"), ("ifindex", "u32")], 20,
   ["reached", "TOS/TCLASS", "UDP_SEGMENT", "PKTINFO"],
   ["cmsg::Encoder::new", "cmsg::Encoder::push", "cmsg::Encoder::finish (Drop)", "cmsg::Iter::new", "cmsg::Iter::next", "cmsg::decode", "libc::CMSG_FIRSTHDR/NXTHDR/DATA/LEN/SPACE"],
-  "every subset of {TOS|TCLASS c_int, UDP_SEGMENT u16, in_pktinfo|in6_pktinfo} in prepare_msg's order, every value; 96-byte control buffer; Kani pointer checks on",
+  "every subset of {TOS|TCLASS c_int, UDP_SEGMENT u16, in_pktinfo|in6_pktinfo} in prepare_msg's order, every value; cmsg::LEN-byte control buffer; Kani pointer checks on",
   crate="quinn_udp")
 H("udp_decode_recv_meta", ["C19"], "quick", "unix::decode_recv_meta",
   [("len", "u16"), ("use_tos", "bool"), ("tos", "u8"), ("use_gro", "bool"), ("gro", "u16"), ("use_pktinfo", "bool"), ("dst", "u32"), ("ifindex", "u32"), ("port", "u16"), ("src", "u32")], 20,
@@ -345,6 +345,8 @@ H("endpoint_reset_token_event_native", ["C08", "C09"], "replay-only", "endpoint:
 H("conn_on_packet_authenticated_native", ["C04"], "replay-only", "connection::on_packet_authenticated_native",
   [("has_pn", "bool")], 4, [], ["Connection::on_packet_authenticated"], "native replay body of E2 query e2_on_packet_authenticated")
 
+H("conn_migrate_native", ["C15"], "replay-only", "connection::migrate_native",
+  [("old_challenged", "bool"), ("old_pending", "bool"), ("v4", "bool")], 4, [], ["Connection::migrate"], "native replay body of E2 query e2_migrate")
 H("conn_peer_params_cid_auth_native", ["C14", "C04"], "replay-only", "connection::peer_params_cid_auth_native",
   [("server", "bool"), ("which", "u8")], 4, [], ["Connection::handle_peer_params"], "native replay body of E2 query e2_peer_params_cid_auth")
 
